@@ -62,11 +62,46 @@ type sn struct {
 	// planned reuse: nodes with the same tmpl id>0 are instances of one template forest
 	tmpl int
 	inst int
+	// inOp: the node sits inside an action / rpc / notification (config does not apply there)
+	inOp bool
 }
 
 type gen1 struct {
-	r   *rand.Rand
-	seq int
+	r     *rand.Rand
+	seq   int
+	noOps int // > 0: no actions / notifications here (inside one already, or in a refine template)
+}
+
+func isOp(kind string) bool {
+	return kind == "action" || kind == "notification" || kind == "rpc"
+}
+
+func markOp(f []*sn) {
+	for _, n := range f {
+		n.inOp = true
+		n.cfgStmt = nil
+		markOp(n.kids)
+	}
+}
+
+// ops gives a container / list (or the module: top) an action and / or a notification of its own, YANG 1.1 style.
+func (g *gen1) ops(top bool) []*sn {
+	if g.noOps > 0 {
+		return nil
+	}
+	var out []*sn
+	g.noOps++
+	if g.r.Intn(4) == 0 {
+		a := &sn{kind: "action", name: g.nm("act")}
+		a.kids = []*sn{{kind: "input", kids: g.forest(1, 2)}, {kind: "output", kids: g.forest(1, 2)}}
+		out = append(out, a)
+	}
+	if g.r.Intn(5) == 0 {
+		out = append(out, &sn{kind: "notification", name: g.nm("ev"), kids: g.forest(1, 2)})
+	}
+	g.noOps--
+	markOp(out)
+	return out
 }
 
 func (g *gen1) nm(p string) string { g.seq++; return fmt.Sprintf("%s%d", p, g.seq) }
@@ -99,12 +134,14 @@ func (g *gen1) forest(depth, width int) []*sn {
 			if g.r.Intn(3) == 0 {
 				c.desc = "d-" + c.name
 			}
+			c.kids = append(g.ops(false), c.kids...)
 			out = append(out, c)
 		case k < 9:
 			l := &sn{kind: "list", name: g.nm("list"), min: g.r.Intn(2) * 2}
 			kl := &sn{kind: "leaf", name: g.nm("k"), typ: "string"}
 			l.keys = []string{kl.name}
 			l.kids = append([]*sn{kl}, g.forest(depth-1, width)...)
+			l.kids = append(g.ops(false), l.kids...)
 			out = append(out, l)
 		default:
 			ch := &sn{kind: "choice", name: g.nm("ch")}
@@ -149,14 +186,29 @@ func setEffective(f []*sn, cfg bool) {
 
 // reduced rendering of the semantic tree.
 func renderSem(f []*sn, ind string, b *strings.Builder) {
+	// data nodes in their order, then the actions and the notifications by name
+	var data, ops []*sn
 	for _, n := range f {
+		if isOp(n.kind) {
+			ops = append(ops, n)
+		} else {
+			data = append(data, n)
+		}
+	}
+	sort.SliceStable(ops, func(i, j int) bool { return ops[i].kind+" "+ops[i].name < ops[j].kind+" "+ops[j].name })
+	for _, n := range append(data, ops...) {
 		kids := n.kids
 		if n.kind == "choice" {
 			kids = append([]*sn(nil), n.kids...)
 			sort.Slice(kids, func(i, j int) bool { return kids[i].name < kids[j].name })
 		}
+		if isOp(n.kind) || n.kind == "input" || n.kind == "output" {
+			fmt.Fprintf(b, "%s%s %s\n", ind, n.kind, n.name)
+			renderSem(kids, ind+"  ", b)
+			continue
+		}
 		fmt.Fprintf(b, "%s%s %s", ind, n.kind, n.name)
-		if n.kind != "case" && n.kind != "choice" {
+		if n.kind != "case" && n.kind != "choice" && !n.inOp {
 			fmt.Fprintf(b, " config=%v", n.cfg)
 		}
 		if n.dflt != "" {
@@ -189,14 +241,14 @@ func renderSem(f []*sn, ind string, b *strings.Builder) {
 }
 
 // reduced rendering of a compiled tree (from the canonical dump).
-func renderDump(kids []interface{}, ind string, b *strings.Builder, problems *[]string) {
+func renderDump(kids []interface{}, ind string, b *strings.Builder, problems *[]string, inOp bool) {
 	for _, k := range kids {
 		m := k.(map[string]interface{})
 		kind := strings.ToLower(strings.TrimPrefix(fmt.Sprint(m["kind"]), "*meta."))
 		kind = map[string]string{"leaflist": "leaf-list", "choicecase": "case"}[kind] + map[string]string{"container": "container", "list": "list", "leaf": "leaf", "choice": "choice", "any": "anydata"}[kind]
 		name := fmt.Sprint(m["ident"])
 		fmt.Fprintf(b, "%s%s %s", ind, kind, name)
-		if kind != "case" && kind != "choice" {
+		if kind != "case" && kind != "choice" && !inOp {
 			fmt.Fprintf(b, " config=%v", m["config"])
 		}
 		if hd, _ := m["has-default"].(bool); hd {
@@ -245,11 +297,51 @@ func renderDump(kids []interface{}, ind string, b *strings.Builder, problems *[]
 			for _, n := range names {
 				cs = append(cs, cases[n])
 			}
-			renderDump(cs, ind+"  ", b, problems)
+			renderDump(cs, ind+"  ", b, problems, inOp)
 			continue
 		}
 		ch, _ := m["children"].([]interface{})
-		renderDump(ch, ind+"  ", b, problems)
+		renderDump(ch, ind+"  ", b, problems, inOp)
+		renderDumpOps(m, ind+"  ", b, problems)
+	}
+}
+
+// renderDumpOps: the actions and notifications a compiled node carries, by name.
+func renderDumpOps(m map[string]interface{}, ind string, b *strings.Builder, problems *[]string) {
+	linkage := func(x map[string]interface{}, what string) {
+		if ok, _ := x["parent-ok"].(bool); !ok {
+			*problems = append(*problems, "parent-linkage: Parent() of "+what+" is not the node that lists it")
+		}
+		if rv, _ := x["revisit"].(bool); rv {
+			*problems = append(*problems, "aliasing: the definition object of "+what+" is reachable twice in the compiled tree")
+		}
+	}
+	for _, grp := range []string{"actions", "notifications"} {
+		set, _ := m[grp].(map[string]interface{})
+		var names []string
+		for n := range set {
+			names = append(names, n)
+		}
+		sort.Strings(names)
+		for _, n := range names {
+			x, _ := set[n].(map[string]interface{})
+			linkage(x, n)
+			if grp == "notifications" {
+				fmt.Fprintf(b, "%snotification %s\n", ind, n)
+				ch, _ := x["children"].([]interface{})
+				renderDump(ch, ind+"  ", b, problems, true)
+				continue
+			}
+			fmt.Fprintf(b, "%saction %s\n", ind, n)
+			for _, io := range []string{"input", "output"} {
+				if iom, ok := x[io].(map[string]interface{}); ok {
+					linkage(iom, n+"/"+io)
+					fmt.Fprintf(b, "%s  %s \n", ind, io)
+					ch, _ := iom["children"].([]interface{})
+					renderDump(ch, ind+"    ", b, problems, true)
+				}
+			}
+		}
 	}
 }
 
@@ -296,11 +388,16 @@ func propsOf(n *sn) []string {
 	return p
 }
 
-func toSyntax(f []*sn) []*yn {
+func toSyntax(f []*sn) []*yn { return toSyntaxAt(f, true) }
+
+func toSyntaxAt(f []*sn, top bool) []*yn {
 	var out []*yn
 	for _, n := range f {
 		y := &yn{kw: n.kind, arg: n.name, body: propsOf(n), sem: n}
-		y.kids = toSyntax(n.kids)
+		if top && n.kind == "action" {
+			y.kw = "rpc"
+		}
+		y.kids = toSyntaxAt(n.kids, false)
 		out = append(out, y)
 	}
 	return out
@@ -357,7 +454,7 @@ func (f *factorizer) sites() []site {
 	var out []site
 	var rec func(n *yn, chain []*yn)
 	rec = func(n *yn, chain []*yn) {
-		if n.kw == "container" || n.kw == "list" || n.kw == "case" || n.kw == "grouping" {
+		if n.kw == "container" || n.kw == "list" || n.kw == "case" || n.kw == "grouping" || n.kw == "input" || n.kw == "output" || n.kw == "notification" {
 			out = append(out, site{n, append(append([]*yn{}, chain...), n)})
 		}
 		for _, k := range n.kids {
@@ -435,9 +532,14 @@ func (f *factorizer) outlineGrouping() {
 	if s.node != nil {
 		kids = &s.node.kids
 	}
+	// a grouping may carry actions and notifications for the container / list that uses it
+	opsToo := s.node != nil && (s.node.kw == "container" || s.node.kw == "list" || s.node.kw == "grouping")
+	movable := func(k *yn) bool {
+		return dataKid(k) && k.kw != "uses" || opsToo && (k.kw == "action" || k.kw == "notification")
+	}
 	var idxs []int
 	for i, k := range *kids {
-		if dataKid(k) && k.kw != "uses" {
+		if movable(k) {
 			idxs = append(idxs, i)
 		}
 	}
@@ -446,7 +548,7 @@ func (f *factorizer) outlineGrouping() {
 	}
 	start := idxs[f.r.Intn(len(idxs))]
 	end := start + 1
-	for end < len(*kids) && dataKid((*kids)[end]) && (*kids)[end].kw != "uses" && f.r.Intn(2) == 0 {
+	for end < len(*kids) && movable((*kids)[end]) && f.r.Intn(2) == 0 {
 		end++
 	}
 	if s.node != nil && s.node.kw == "list" {
@@ -469,7 +571,7 @@ func (f *factorizer) outlineGrouping() {
 	case place >= 4 && len(s.chain) > 0:
 		// local to a random ancestor (or the node itself): sibling-scoped / nested grouping
 		anc := s.chain[f.r.Intn(len(s.chain))]
-		if anc.kw != "container" && anc.kw != "list" && anc.kw != "grouping" {
+		if anc.kw != "container" && anc.kw != "list" && anc.kw != "grouping" && anc.kw != "input" && anc.kw != "output" && anc.kw != "notification" {
 			f.top = append([]*yn{g}, f.top...)
 			f.step("grouping-module")
 		} else {
@@ -545,7 +647,7 @@ func (f *factorizer) usesAugment(u *yn, run []*yn) {
 	var tgts []tgt
 	var rec func(n *yn, path []string)
 	rec = func(n *yn, path []string) {
-		if n.kw == "grouping" || n.kw == "uses" || n.kw == "augment" {
+		if n.kw == "grouping" || n.kw == "uses" || n.kw == "augment" || isOp(n.kw) {
 			return
 		}
 		p := append(append([]string{}, path...), n.arg)
@@ -594,7 +696,7 @@ func (f *factorizer) outlineAugment() {
 	var tgts []tgt
 	var rec func(n *yn, path []string)
 	rec = func(n *yn, path []string) {
-		if n.kw == "grouping" || n.kw == "uses" || n.kw == "augment" {
+		if n.kw == "grouping" || n.kw == "uses" || n.kw == "augment" || isOp(n.kw) {
 			return
 		}
 		p := append(append([]string{}, path...), n.arg)
@@ -714,6 +816,11 @@ func (f *factorizer) decoys() {
 	for i := 0; i < 2; i++ {
 		s := ss[f.r.Intn(len(ss))]
 		d := &yn{kw: "leaf", arg: fmt.Sprintf("decoy%d", i), body: []string{"if-feature off1;", "type string;"}}
+		if s.node != nil && (s.node.kw == "container" || s.node.kw == "list" || s.node.kw == "grouping") && f.r.Intn(3) == 0 {
+			// an operation under the disabled feature (also as a grouping's own action / notification)
+			d = &yn{kw: []string{"action", "notification"}[f.r.Intn(2)], arg: fmt.Sprintf("decoyop%d", i), body: []string{"if-feature off1;"}}
+			f.step("decoy-operation-under-disabled-feature")
+		}
 		if s.node == nil {
 			f.top = append(f.top, d)
 		} else if s.node.kw != "grouping" {
@@ -776,7 +883,9 @@ type reuse struct {
 }
 
 func (g *gen1) reuseForest(n int) *reuse {
+	g.noOps++
 	r := &reuse{gname: g.nm("rg"), tmpl: g.forest(1, 3)}
+	g.noOps--
 	for _, t := range r.tmpl {
 		t.cfgStmt = nil
 	}
@@ -850,7 +959,8 @@ func c01reduce(m *meta.Module) (string, []string) {
 	kids, _ := generic.(map[string]interface{})["children"].([]interface{})
 	var b strings.Builder
 	var problems []string
-	renderDump(kids, "", &b, &problems)
+	renderDump(kids, "", &b, &problems, false)
+	renderDumpOps(generic.(map[string]interface{}), "", &b, &problems)
 	for _, p := range w.Panics {
 		problems = append(problems, "walk-panic: "+p)
 	}
@@ -861,6 +971,7 @@ func (p c01) Run(c *core.Ctx, idx int) {
 	r := c.Rand
 	g := &gen1{r: r}
 	sem := g.forest(2+r.Intn(2), 4)
+	sem = append(g.ops(true), sem...)
 	var ru *reuse
 	if idx%2 == 0 {
 		ru = g.reuseForest(2 + r.Intn(2))
@@ -950,6 +1061,23 @@ func (p c01) Run(c *core.Ctx, idx int) {
 		} else {
 			f.step("inline")
 		}
+		// what the spelling puts inside operations
+		var opScan func(ys []*yn, inOp, inGrouping bool)
+		opScan = func(ys []*yn, inOp, inGrouping bool) {
+			for _, y := range ys {
+				op := y.kw == "action" || y.kw == "notification" || y.kw == "rpc"
+				if op && inGrouping {
+					f.step("operation-from-grouping")
+				}
+				if y.kw == "uses" && inOp {
+					f.step("uses-inside-operation")
+				}
+				opScan(y.kids, inOp || op, y.kw == "grouping")
+			}
+		}
+		opScan(f.top, false, false)
+		opScan(f.sub, false, false)
+		opScan(f.imp, false, false)
 		mods := f.texts()
 		var steps []string
 		for s := range f.steps {
